@@ -60,22 +60,35 @@ def replay_case(c):
                 bad.append(("C02.relative-capture", dict(q="relative_capture(mix)", **where0), R[k].tolist(), np.asarray(est.relative_capture(mix)).tolist()))
             if not close(est.system_capture(X[k]), Q[k]) or not close(est.system_relative_capture(X[k]), R[k]):
                 bad.append(("C02.system-capture", dict(q="single-vector", **where0), Q[k].tolist(), np.asarray(est.system_capture(X[k])).tolist()))
-        # adaptation to a background: spectrum and intensity vector
+        # adaptation to a background: spectrum and intensity vector.  The SAME estimator that has already answered
+        # the queries above is re-adapted (anything cached by a query must not survive the adaptation), and a fresh
+        # one is used as well.
+        one = np.ones(d)
         for k, r in enumerate(recs):
             if not r["adaptable"]:
                 continue
             mix = X[k] @ S
-            e2 = dreye.ReceptorEstimator(F.copy(), domain=dom, **kw)
-            e2.register_system(S.copy(), lb=np.zeros(S.shape[0]), ub=np.full(S.shape[0], 4.0))
-            e2.register_background_adaptation(mix)
-            one = np.ones(d)
-            if not close(e2.relative_capture(mix), one, 1e-12):
-                bad.append(("C02.adapted-is-one", dict(q="background", **where0), one.tolist(), np.asarray(e2.relative_capture(mix)).tolist()))
-            e3 = dreye.ReceptorEstimator(F.copy(), domain=dom, **kw)
-            e3.register_system(S.copy(), lb=np.zeros(S.shape[0]), ub=np.full(S.shape[0], 4.0))
-            e3.register_system_adaptation(X[k])
-            if not close(e3.system_relative_capture(X[k]), one, 1e-12):
-                bad.append(("C02.adapted-is-one", dict(q="system", **where0), one.tolist(), np.asarray(e3.system_relative_capture(X[k])).tolist()))
+            for label, obj in (("reused", est), ("fresh", None)):
+                e2 = obj
+                if e2 is None:
+                    e2 = dreye.ReceptorEstimator(F.copy(), domain=dom, **kw)
+                    e2.register_system(S.copy(), lb=np.zeros(S.shape[0]), ub=np.full(S.shape[0], 4.0))
+                e2.register_background_adaptation(mix)
+                if not close(e2.relative_capture(mix), one, 1e-12) or not close(e2.system_relative_capture(X[k]), one, 1e-12):
+                    bad.append(("C02.adapted-is-one", dict(q="background", obj=label, **where0), one.tolist(),
+                                [np.asarray(e2.relative_capture(mix)).tolist(), np.asarray(e2.system_relative_capture(X[k])).tolist()]))
+                if K is not None:
+                    e2.register_adaptation(K)
+                    if not close(e2.system_relative_capture(X), R):
+                        bad.append(("C02.relative-capture", dict(q="after re-registering K", obj=label, **where0), R.tolist(), np.asarray(e2.system_relative_capture(X)).tolist()))
+                e2.register_system_adaptation(X[k])
+                if not close(e2.system_relative_capture(X[k]), one, 1e-12) or not close(e2.relative_capture(mix), one, 1e-12):
+                    bad.append(("C02.adapted-is-one", dict(q="system", obj=label, **where0), one.tolist(),
+                                [np.asarray(e2.system_relative_capture(X[k])).tolist(), np.asarray(e2.relative_capture(mix)).tolist()]))
+                if K is not None:
+                    e2.register_adaptation(K)
+                else:
+                    e2.register_adaptation(1.0)
     except Exception as ex:
         bad.append(("C02.no-error", dict(exc=type(ex).__name__, **where0), None, repr(ex)[:200]))
     return bad
